@@ -20,6 +20,8 @@ from rmc.runner import Report
 
 ID = "C14"
 LEVEL = "exploration"
+BUILD = __import__("pathlib").Path(__file__).resolve().parent.parent / "build"
+BUILD.mkdir(exist_ok=True)
 
 IMPORTS = (
     "from Reduino import target\n"
@@ -94,6 +96,39 @@ def generate(tier: str) -> List[dict]:
                         orders = ("par-first", "i2c-first") if (n_par and n_i2c) else ("par-first",)
                         for order in orders:
                             cases.append(build(ss, sl, n_par, n_i2c, others, animate, order))
+    # every declaration order of up to four displays of both kinds (with and without a servo in between)
+    for n in range(1, 5):
+        for seq in itertools.product("PI", repeat=n):
+            for servo_at in (None, 0, n):
+                setup = []
+                loop = []
+                for i, kind in enumerate(seq):
+                    if servo_at == i:
+                        setup.append("sq = Servo(2)")
+                    setup.append(f"lq{i} = LCD(rs={30 + 6 * i}, en={31 + 6 * i}, d4={32 + 6 * i}, d5={33 + 6 * i}, d6={34 + 6 * i}, d7={35 + 6 * i})" if kind == "P" else f"lq{i} = LCD(i2c_addr={39 - i})")
+                    loop.append(f'lq{i}.line(0, "x")')
+                if servo_at == n:
+                    setup.append("sq = Servo(2)")
+                if servo_at is not None:
+                    loop.append("sq.write(90)")
+                want = {"LiquidCrystal"} if "P" in seq else set()
+                want |= {"LiquidCrystal_I2C"} if "I" in seq else set()
+                want |= {"Servo"} if servo_at is not None else set()
+                src = IMPORTS + "\n".join(setup) + "\nwhile True:\n" + "\n".join("    " + ln for ln in loop + ["sleep(5)"]) + "\n"
+                cases.append({"src": src, "want": sorted(want), "desc": {"lcd_sequence": "".join(seq), "servo_at": servo_at}})
+    # one name bound to devices of two different kinds, one after the other (before the loop, and the second one at the
+    # top of the loop body when that kind may be declared there)
+    kinds = {"button": ("Button(2)", None, "{n}.is_pressed()"), "servo": ("Servo(9)", "Servo", "{n}.write(30)"), "led": ("Led(13)", None, "{n}.toggle()"),
+             "lcd_par": ("LCD(rs=30, en=31, d4=32, d5=33, d6=34, d7=35)", "LiquidCrystal", '{n}.line(0, "p")'), "lcd_i2c": ("LCD(i2c_addr=39)", "LiquidCrystal_I2C", '{n}.line(0, "i")')}
+    for (k1, (d1, lib1, use1)), (k2, (d2, lib2, use2)) in itertools.permutations(kinds.items(), 2):
+        for second_in_loop in ((False, True) if k2 in ("button", "servo", "led") else (False,)):
+            use1_stmt = ("pressed1 = " if k1 == "button" else "") + use1.format(n="dev")
+            use2_stmt = ("pressed2 = " if k2 == "button" else "") + use2.format(n="dev")
+            if second_in_loop:
+                src = IMPORTS + f"dev = {d1}\n{use1_stmt}\nwhile True:\n    dev = {d2}\n    {use2_stmt}\n    sleep(5)\n"
+            else:
+                src = IMPORTS + f"dev = {d1}\n{use1_stmt}\ndev = {d2}\nwhile True:\n    {use2_stmt}\n    sleep(5)\n"
+            cases.append({"src": src, "want": sorted({lib for lib in (lib1, lib2) if lib}), "desc": {"rebind": [k1, k2], "second_in_loop": second_in_loop}})
     # spellings: the first I2C address written as 0 / hex / a constant expression; the main loop header with redundant
     # parentheses, spaces or a trailing comment (servos declared at the top of the body depend on that header)
     for ss, sl in [(a, b) for a in range(3) for b in range(3) if a + b <= 2]:
@@ -122,6 +157,25 @@ def analyse(case: dict) -> Optional[str]:
     want = set(case["want"])
     if len(libs) != len(set(libs)):
         return f"lib_deps lists a library twice: {libs}"
+    # what target() hands to PlatformIO: the lib_deps section of the written project
+    import configparser
+    import shutil
+    import tempfile
+
+    from Reduino.toolchain import pio
+
+    tmp = tempfile.mkdtemp(prefix="c14-", dir=str(BUILD))
+    try:
+        pio.write_project(__import__("pathlib").Path(tmp), "void setup() {}\nvoid loop() {}\n", port="COM3", platform="atmelavr", board="uno", lib_deps=libs)
+        cp = configparser.ConfigParser(interpolation=None)
+        cp.read(str(__import__("pathlib").Path(tmp) / "platformio.ini"), encoding="utf-8")
+        written = cp[cp.sections()[0]].get("lib_deps", "").split()
+    except Exception as exc:  # noqa: BLE001
+        return f"writing the project failed: {type(exc).__name__}: {exc}"
+    finally:
+        shutil.rmtree(tmp, ignore_errors=True)
+    if written != libs:
+        return f"platformio.ini requests {written}, the script needs {libs}"
     includes = re.findall(r"^\s*#\s*include\s*[<\"]([^>\"]+)[>\"]", text, flags=re.M)
     unknown = [h for h in includes if h not in KNOWN_HEADERS]
     if unknown:
@@ -183,6 +237,9 @@ def main(tier: str, seed: int, only=None) -> int:
         t = texts.get(case["src"])
         if t is not None:
             d = case["desc"]
+            if "servo_setup" not in d:
+                reps.setdefault((tuple(case["want"]), json.dumps(d, sort_keys=True)), t)
+                continue
             reps.setdefault((tuple(case["want"]), d["servo_setup"] > 0, d["servo_loop"] > 0, min(d["parallel"], 1), min(d["i2c"], 1), tuple(d["others"]), d["animate"]), t)
     uniq = sorted(set(reps.values())) if not report.violations else []
     results = pipeline.pool().imap(_compile, uniq, chunksize=8) if pipeline.WORKERS > 1 else map(_compile, uniq)
